@@ -1,4 +1,5 @@
 import Rivaas.Lemmas.OpenAPIParams
+set_option linter.unusedSimpArgs false
 /-
 C07 — helper lemmas: provenance. Every operation stored in the result of `Build` under (path key,
 member) was built by `buildOperation` from the *last* operation handed in with that key and member.
